@@ -145,7 +145,10 @@ def part_a(ctx):
                         d0 = attrs.get("default", "None")
                         typed[var] = None if d0 == "None" else int(d0)
             if c["name"] == "convert_plink:convert":
-                argv += [BED, new_out]
+                if new_out in argv:      # the output path is a declared (guarded) argument; the input path is declared inline
+                    argv.insert(argv.index(new_out), BED)
+                else:
+                    argv += [BED, new_out]
                 typed["in_path"], typed["zarr_path"] = BED, new_out
             doc = dict(part="option-flow", command=c["name"], argv=[a.replace(d, "<tmp>").replace(REPO, "<repo>") for a in argv])
             ctx.case(doc, nontrivial=len(argv) > 3, sample=(rep == 0 and c["name"] == "encode"))
@@ -395,6 +398,13 @@ def part_b(ctx):
     rc, out = run("plink2zarr", "convert", BED, P("p1.vcz"), "-Q", "-l", "10", "-w", "3", "-p", "0")
     plink.convert(BED, P("p2.vcz"), variants_chunk_size=10, samples_chunk_size=3, worker_processes=0)
     check("plink convert cli == library", rc == 0 and snap_vcz(P("p1.vcz")) == snap_vcz(P("p2.vcz")), out)
+    os.makedirs(P("precious"))
+    open(P("precious/keep.txt"), "w").write("x")
+    for answer in ("n\n", "\n"):
+        rc, out = run("plink2zarr", "convert", BED, P("precious"), "-Q", "-p", "0", inp=answer)
+        check("plink convert onto an existing path, declined, leaves it intact", rc != 0 and os.listdir(P("precious")) == ["keep.txt"], out)
+    rc, out = run("plink2zarr", "convert", BED, P("precious"), "-Q", "-p", "0", "-f")
+    check("plink convert --force replaces", rc == 0 and "call_genotype" in os.listdir(P("precious")), out)
     shutil.rmtree(d, ignore_errors=True)
 
 
